@@ -102,3 +102,10 @@ def audit(prop):
             res["discharged"] += 1
         res["theorems"].append({"name": name, "axioms": axioms})
     return res
+
+
+if __name__ == "__main__":
+    import sys, json
+    r = audit(sys.argv[1])
+    print(json.dumps({"obligations": r["obligations"], "discharged": r["discharged"], "problems": r["problems"]}, indent=1))
+    sys.exit(1 if r["problems"] else 0)
